@@ -137,7 +137,7 @@ pub fn gen_case(prop: &str, tier: Tier, seed: u64, idx: u64) -> Option<Case> {
             }
         }
         "C03" => {
-            let mut o = GenOpts { hostile_pct: 2, reorder_pct: 45, audio_pct: 50, meta_pct: 10, decorate: false, ..Default::default() };
+            let mut o = GenOpts { hostile_pct: 2, reorder_pct: 45, audio_pct: 50, meta_pct: 10, encode_pct: 12, decorate: false, ..Default::default() };
             o.max_video = if r.chance(1, 40) { if thorough { 20_000 } else { 2_000 } } else { 40 };
             o.max_audio = if r.chance(1, 40) { 2_000 } else { 40 };
             if thorough && r.chance(1, 4000) {
@@ -174,7 +174,7 @@ pub fn gen_case(prop: &str, tier: Tier, seed: u64, idx: u64) -> Option<Case> {
             hist_case(h)
         }
         "C09" => {
-            let o = GenOpts { hostile_pct: 10, reorder_pct: 40, audio_pct: 100, meta_pct: 10, nonzero_start_pct: 50, max_video: 12, max_audio: 16, ..Default::default() };
+            let o = GenOpts { hostile_pct: 10, reorder_pct: 40, audio_pct: 100, meta_pct: 10, encode_pct: 25, nonzero_start_pct: 50, max_video: 12, max_audio: 16, ..Default::default() };
             let mut cfg = crate::gen::hist::gen_cfg(r, &o);
             if cfg.audio_effective().is_none() {
                 cfg.audio = Some(AudioCfg { kind: 1, rate: 48_000, channels: 2 });
@@ -222,6 +222,33 @@ fn mon_c07_case(r: &mut Rng) -> Case {
             side.vp9 = f;
             d
         }
+        c if r.chance(1, 40) => {
+            // the FIRST parameter set of one type is too long for its 16-bit length field and a
+            // later one of the same type fits: the frame may be refused, but if it is accepted
+            // the record must still carry the first one (never a silently substituted later one)
+            let two = c == H265;
+            let types: &[u8] = if two { &[32, 33, 34] } else { &[7, 8] };
+            let big = *r.pick(types);
+            let mk = |r: &mut Rng, t: u8, n: usize| -> Vec<u8> {
+                let mut v = if two { vec![t << 1, 1] } else { vec![0x60 | t] };
+                v.extend(r.bytes(n).into_iter().map(|b| b | 4));
+                v
+            };
+            let mut d = Vec::new();
+            for &t in types {
+                if t == big {
+                    let n = r.range(65_534, 66_000) as usize;
+                    d.extend_from_slice(&[0, 0, 0, 1]);
+                    d.extend(mk(r, t, n));
+                }
+                let n = r.range(4, 30) as usize;
+                d.extend_from_slice(&[0, 0, 1]);
+                d.extend(mk(r, t, n));
+            }
+            d.extend_from_slice(&[0, 0, 1]);
+            d.extend(if two { vec![19 << 1, 1, 0xaa, 0xbb] } else { vec![0x65, 0x88, 0x84] });
+            d
+        }
         c => video_frame(r, c, FrameKind::KeyCfg, body, true),
     };
     // sometimes the real first keyframe is preceded by rejected attempts that carry OTHER
@@ -265,17 +292,32 @@ pub fn eval_case(prop: &str, case: &Case, obs: &mut Obs) -> Vec<Violation> {
     obs.evaluations += 1;
     match (prop, case) {
         ("C01", Case::Hist { h, .. }) | ("C15", Case::Hist { h, .. }) | ("C03", Case::Hist { h, .. }) | ("C06", Case::Hist { h, .. }) | ("C09", Case::Hist { h, .. }) => {
-            // C06: a fifth of the runs use a sink that shortens / interrupts writes without failing
+            // C06: a fifth of the runs use a sink that shortens / interrupts writes without failing;
+            // C06 and C01: some runs use a sink that fails ONE write call and then recovers, and
+            // the caller retries finish (a retry must not produce a second, or a damaged, file).
+            let hv = h.hash();
+            let one_shot = crate::sink::Fault::FailWrite { k: ((hv >> 8) % 8) as usize, kind: ((hv >> 16) % crate::sink::KINDS.len() as u64) as usize };
+            let mut retry_h;
+            let mut h = h;
             let fault = if prop == "C06" {
-                match h.hash() % 10 {
+                match hv % 10 {
                     0 => crate::sink::Fault::OneByte,
-                    1 => crate::sink::Fault::Schedule { seed: h.hash(), max_chunk: 7, interrupt_pct: 20 },
+                    1 => crate::sink::Fault::Schedule { seed: hv, max_chunk: 7, interrupt_pct: 20 },
+                    2 => one_shot,
                     _ => crate::sink::Fault::None,
                 }
+            } else if prop == "C01" && hv % 16 == 0 {
+                one_shot
             } else {
                 crate::sink::Fault::None
             };
-            if !matches!(fault, crate::sink::Fault::None) {
+            if matches!(fault, crate::sink::Fault::FailWrite { .. }) {
+                obs.count("runs_with_one_failing_write_then_retry", 1);
+                retry_h = h.clone();
+                retry_h.ops.push(Op::Finish(FinishKind::InPlaceStats));
+                retry_h.ops.push(Op::Finish(FinishKind::InPlace));
+                h = &retry_h;
+            } else if !matches!(fault, crate::sink::Fault::None) {
                 obs.count("runs_with_short_writing_sink", 1);
             }
             let (ex, sink) = crate::exec::run_fault(h, &ExecOpts::default(), fault);
